@@ -286,6 +286,22 @@ pub fn c08_leaf(env: &mut Env, leaf: &Leaf) {
             d.frames.iter().any(|f| d.emb_frames.contains(&f.op) && f.file == *file && *off >= f.offset + 4 && off + bytes.len() <= f.offset + 6)
         });
     }
+    // multi-frame entries of the image: (serialized length, payload length of the first frame)
+    let mut multi: Vec<(usize, usize)> = vec![];
+    {
+        let mut by_op: BTreeMap<usize, Vec<&FrameInfo>> = BTreeMap::new();
+        for f in &d.frames {
+            by_op.entry(f.op).or_default().push(f);
+        }
+        for (op, fs) in by_op {
+            if fs.len() >= 2 && d.op_records.contains_key(&op) && fs.iter().all(|f| d.image.get(&f.file).map(|b| b[f.offset + 6] != 1).unwrap_or(false)) {
+                let total: usize = fs.iter().map(|f| f.len - 7).sum();
+                multi.push((total, fs[0].len - 7));
+            }
+        }
+        multi.sort();
+        multi.dedup();
+    }
     let nfaults = faults.len();
     env.stats.sample(|| json!({"engine": "damage", "seed": leaf.seed.name, "ops": leaf.ops.iter().map(|o| o.short()).collect::<Vec<_>>(), "wal_files": d.image.len(), "frames": d.frames.len(), "faults_enumerated": nfaults, "first_fault": faults.first().map(|f| f.1.clone())}));
     for (patch, descr, on_emb_carrier) in faults {
@@ -298,6 +314,46 @@ pub fn c08_leaf(env: &mut Env, leaf: &Leaf) {
                 env.stats.outcome("open-ok");
                 env.stats.state(&hash_of(&obs));
                 env.stats.nontrivial(&(hash_of(&obs), descr["kind"].as_str().map(|s| s.to_string())));
+                // A whole block zeroed can cut a multi-frame entry after its first frame: the log
+                // "ends" there. Appending an entry exactly as long as what that entry still missed,
+                // then restarting, must not glue the two into a record that was never appended.
+                if descr["kind"] == "zero-range" && descr["len"].as_u64().map(|l| l as usize >= BLOCK).unwrap_or(false) && descr["offset"].as_u64().map(|o| o as usize % BLOCK == 0).unwrap_or(false) {
+                    for (total, first) in &multi {
+                        let Some(len) = total.checked_sub(first + 24) else { continue };
+                        for q in obs.keys().filter(|q| q.len() == 1) {
+                            env.stats.count("zeroed_block_then_append_then_restart", 1);
+                            env.stats.evaluations += 1;
+                            env.stats.transitions += 3;
+                            let payload = crate::ops::payload(7000 + len as u32, len);
+                            let r = guarded(|| -> Option<(Obs, u64)> {
+                                set_image(&dir, &img);
+                                reset_hooks(0, false);
+                                let mut log = open_log(&dir, PolicyCfg::Default).ok()?;
+                                let out = log.append_record(q, None, &payload[..]).ok()?;
+                                drop(log);
+                                let log = open_log(&dir, PolicyCfg::Default).ok()?;
+                                Some((observe(&log), out.last_position.unwrap_or(0)))
+                            });
+                            if let Ok(Some((obs2, pos))) = r {
+                                let mut d2_appended = d.appended.clone();
+                                d2_appended.insert((q.clone(), pos, payload.to_vec()));
+                                for (qq, qo) in &obs2 {
+                                    for (p, b) in &qo.recs {
+                                        if !d2_appended.contains(&(qq.clone(), *p, b.clone())) {
+                                            env.stats.violation(Violation {
+                                                property: "C08".into(),
+                                                signature: "phantom-record-after-append-and-restart".into(),
+                                                what: format!("after fault {}, a successful open, an append of {} bytes to {} and a restart: queue {} returns position {} with a {}-byte payload that was never appended", descr, len, q, qq, p, b.len()),
+                                                case: case_json(leaf, descr.clone()),
+                                            });
+                                            return;
+                                        }
+                                    }
+                                }
+                            }
+                        }
+                    }
+                }
                 if let Err((q, p, b, why)) = genuine(&d, &obs) {
                     let emb = on_emb_carrier && (q.clone(), p, b.clone()) == emb_record();
                     env.stats.violation(Violation {
